@@ -722,12 +722,41 @@ def k_stripes(rep):
             c.oblige(tag + ':barrier passed once per phase boundary', z3.BoolVal(bane.barrier.gen == (2 if cfg['domask'] else 1)), info='generations=%d' % bane.barrier.gen)
             return dict()
         return h
+
+    def mk_layout(cfg):
+        """the same image filtered as one stripe and as several (stripe edges on grid rows): at every grid node both layouts must
+        have used the same pixels for the background (the noise differs slightly by design: a stripe's last node row sees a box cut
+        one row short, which moves the interpolated background between nodes; the property allows "a small fraction of the noise")"""
+        def h(c):
+            H, W = cfg['H'], cfg['W']
+            a = real_np.empty((H, W), dtype=object)
+            for r in range(H):
+                for cc in range(W):
+                    a[r, cc] = core.real('p_%d_%d' % (r, cc))
+            tag = 'layout independence[%dx%d, box %s, %d stripes vs 1]' % (H, W, cfg['box'], len(cfg['stripes']))
+            b1, r1 = C06.run_bane_sym(c, bane, a.copy(), [(0, H)], cfg['grid'], cfg['box'], domask=True)
+            bn, rn = C06.run_bane_sym(c, bane, a.copy(), cfg['stripes'], cfg['grid'], cfg['box'], domask=True)
+            nodes = [(r, cc) for r in range(0, H, cfg['grid'][0]) for cc in range(0, W, cfg['grid'][1])]
+            L = core.lift
+            ok = all(isinstance(b1[p], core.SN) and isinstance(bn[p], core.SN) and isinstance(r1[p], core.SN) and isinstance(rn[p], core.SN) for p in nodes)
+            c.oblige(tag + ':maps defined at every grid node', z3.BoolVal(ok))
+            if ok:
+                c.oblige(tag + ':background at the grid nodes does not depend on the number of stripes', z3.And([L(b1[p]) == L(bn[p]) for p in nodes]), timeout_ms=60000)
+            return dict()
+        return h
+    lcfgs = [dict(H=12, W=6, grid=(2, 2), box=(4, 4), stripes=[(0, 4), (4, 8), (8, 12)], layout=True), dict(H=12, W=6, grid=(2, 2), box=(8, 4), stripes=[(0, 4), (4, 8), (8, 12)], layout=True),
+             dict(H=12, W=8, grid=(2, 2), box=(4, 8), stripes=[(0, 6), (6, 12)], layout=True)]
     done = False
-    for cfg, (st, res) in zip(cfgs, core.explore_many([(mk(cf), dict(wall_s=300)) for cf in cfgs], workers=8)):
+    plans = [(mk(cf), dict(wall_s=300)) for cf in cfgs] + [(mk_layout(cf), dict(wall_s=300)) for cf in lcfgs]
+    for cfg, (st, res) in zip(cfgs + lcfgs, core.explore_many(plans, workers=8)):
         rep.stats(st)
         for r in res:
             for ob in r['obligations']:
                 rep.count(ob['result'], ob['name'])
+                if ob['result'] == 'sat' and cfg.get('layout'):
+                    bad, cls, detail = layout_oracle()
+                    rep.finding('C07/K-stripes/%s' % (cls or 'layout-independence'), dict(kind='layout-maps'), detail or ob['name'], reproduced=bool(bad))
+                    continue
                 if ob['result'] == 'sat' and not done:
                     for w in (dict(kind='layout', H=64, nslice=4, cores=4, step=4, nanpatch=True, mask=True), dict(kind='layout', H=64, nslice=4, cores=4, step=4, nanpatch=True, mask=False),
                               dict(kind='layout', H=64, nslice=2, cores=2, step=4, mask=True)):
@@ -737,6 +766,33 @@ def k_stripes(rep):
                     if rep.finding('C07/K-stripes/%s' % (cls or 'barrier-arrivals'), w, detail or ob['name'], reproduced=bool(bad)) != 'not-reproduced':
                         done = True
     rep.end_kernel()
+
+
+def layout_oracle():
+    """real BANE on a noisy ramp with a tall and a wide box: maps for 1 and for 3 stripes agree to a small fraction of the noise"""
+    from astropy.io import fits
+    bane = loader.real('BANE')
+    d = tempfile.mkdtemp(prefix='c07l_', dir='/var/tmp')
+    try:
+        rng = real_np.random.default_rng(4)
+        H, W = 300, 60
+        img = (rng.normal(0, 1, (H, W)) + 0.1 * real_np.arange(H)[:, None]).astype(real_np.float32)
+        hdr = fits.Header()
+        hdr['BMAJ'] = hdr['BMIN'] = 1.0
+        hdr['CDELT1'], hdr['CDELT2'] = -0.25, 0.25
+        fn = os.path.join(d, 'r.fits')
+        fits.PrimaryHDU(img, header=hdr).writeto(fn)
+        for box in ((60, 20), (20, 60)):
+            b1, r1 = bane.filter_image(fn, None, step_size=(5, 5), box_size=box, cores=2, nslice=1, mask=False)
+            b3, r3 = bane.filter_image(fn, None, step_size=(5, 5), box_size=box, cores=2, nslice=3, mask=False)
+            db, dr = float(real_np.nanmax(real_np.abs(b1 - b3))), float(real_np.nanmax(real_np.abs(r1 - r3)))
+            if db > 0.4 or dr > 0.4:
+                return True, 'stripe-count-changes-maps', 'box %s on a 300x60 ramp with unit noise: 1 vs 3 stripes differ by %.2f sigma in the background and %.2f sigma in the noise' % (box, db, dr)
+        return False, None, None
+    except Exception as e:
+        return True, 'raises-%s' % type(e).__name__, repr(e)[:200]
+    finally:
+        shutil.rmtree(d, ignore_errors=True)
 
 
 def k_real_runs(rep):
@@ -751,6 +807,10 @@ def k_real_runs(rep):
             w = dict(kind='layout')
             w.update(cfg)
             rep.finding('C07/K-layout/%s' % cls, w, detail, kernel='K-replay-oracle')
+    bad, cls, detail = layout_oracle()
+    rep.validated_runs(4)
+    if bad:
+        rep.finding('C07/K-stripes/%s' % cls, dict(kind='layout-maps'), detail, kernel='K-replay-oracle')
     for point in ('start', 'post_wait1', 'post_wait2'):
         bad, cls, detail = replay_fault(dict(point=point))
         rep.validated_runs(1)
@@ -779,6 +839,8 @@ def replay(w):
     wit = w['witness']
     if wit.get('kind') == 'layout':
         bad, cls, detail = replay_run(wit)
+    elif wit.get('kind') == 'layout-maps':
+        bad, cls, detail = layout_oracle()
     elif wit.get('kind') == 'schedule':
         bad, cls, detail = replay_schedule(wit, skeleton())
     else:
